@@ -39,6 +39,7 @@ theorem C15_io_members (w : W) (s : Side) (p : Panel) (h : w.panel s = some p) (
         match ((w.map s).getD []).lookup (scopedLabel child.label l) with
         | some (.name n) => k = n
         | some (.disabled _) => False
+        | some .rawNone => False
         | none => w.connected c = false ∧ k = scopedLabel child.label l := by
   rw [C15_io_spec w s p h, W.spec, mem_spec_iff]
   simp only [W.chans, List.mem_flatMap, Child.chans, List.mem_map]
@@ -103,6 +104,7 @@ theorem C15_noclash (w : W) (s : Side)
     | some tb =>
       cases tb with
       | disabled _ => simpa using hab
+      | rawNone => simpa using hab
       | name nb =>
         simp only [Option.getD]
         intro e
@@ -115,6 +117,18 @@ theorem C15_noclash (w : W) (s : Side)
       | some tb =>
         cases tb with
         | disabled _ => simpa using hab
+        | rawNone => simpa using hab
+        | name nb =>
+          simp only [Option.getD]
+          intro e
+          exact hdisj b.1 nb (hmem _ _ hlb) (e ▸ List.mem_map.mpr ⟨a, ha', rfl⟩)
+    | rawNone =>
+      cases hlb : m.lookup b.1 with
+      | none => simpa using hab
+      | some tb =>
+        cases tb with
+        | disabled _ => simpa using hab
+        | rawNone => simpa using hab
         | name nb =>
           simp only [Option.getD]
           intro e
@@ -128,6 +142,10 @@ theorem C15_noclash (w : W) (s : Side)
       | some tb =>
         cases tb with
         | disabled _ =>
+          simp only [Option.getD]
+          intro e
+          exact hdisj a.1 na (hmem _ _ hla) (e ▸ List.mem_map.mpr ⟨b, hb', rfl⟩)
+        | rawNone =>
           simp only [Option.getD]
           intro e
           exact hdisj a.1 na (hmem _ _ hla) (e ▸ List.mem_map.mpr ⟨b, hb', rfl⟩)
